@@ -68,6 +68,10 @@ pub fn o_skip(input: &[u8], p: &P) -> Out {
 		if skp.hash != full.hash {
 			return Err(e("skip-hash-at-offset", "hash differs when the reader starts at a non-zero position".into()));
 		}
+		if p.n[0] == 9 {
+			// a replay of a version newer than the writers support: nothing can be written
+			return Ok(xx(&sk.start.bytes.0));
+		}
 		// the result can be written and re-read
 		let w = write_slp(&sk).map_err(|f| e(&format!("skip-write-failed:{}", f.key()), format!("writing the skip_frames game failed: {}", f.describe())))?;
 		let back = read_slp(&w, false, false).map_err(|f| e(&format!("skip-reread-failed:{}", f.key()), format!("the written skip_frames game cannot be read: {}", f.describe())))?;
@@ -197,10 +201,38 @@ pub fn run() {
 			}
 		}
 	}
+	// replays of a newer version whose Game End is longer than any known layout (up to the 65,535 bytes a table
+	// entry can declare): where Game End starts is computed from its declared size
+	for size in [7usize, 600, 65_534, 65_535] {
+		for ver in [(3u8, 17u8), (4, 0)] {
+			let a = base_replay((3, 16), vec![pc(0, false), pc(1, true)], 2);
+			let mut d = record(&a).doc;
+			d.events[0].payload[0] = ver.0;
+			d.events[0].payload[1] = ver.1;
+			for t in d.table.iter_mut() {
+				if t.0 == 0x39 {
+					t.1 = size as u16;
+				}
+			}
+			for ev in d.events.iter_mut() {
+				if ev.code == 0x39 {
+					let n = ev.payload.len();
+					ev.payload.extend((n..size).map(|k| (k % 249) as u8 | 1));
+				}
+			}
+			for hash in [true, false] {
+				aligned.push((d.assemble(), format!("v{}.{} with a Game End of {} bytes", ver.0, ver.1, size), hash));
+			}
+		}
+	}
 	cx.note("aligned_span_cases", json!(aligned.len()));
 	par_each(aligned.into_iter(), |(bytes, label, hash), local| {
 		let bytes = Arc::new(bytes);
-		let p = P { hash, class: "aligned-span", ..Default::default() };
+		let mut p = P { hash, class: "aligned-span", ..Default::default() };
+		if label.contains("Game End of") {
+			p.class = "newer-version";
+			p.n[0] = 9;
+		}
 		eval_case("skip", o_skip, &bytes, &p, || label, local);
 	});
 	finish(cx);
